@@ -104,5 +104,17 @@ package server
 //@   assert-at call os.Open #1 : arg0 == manifestfile(n.Host, n.Namespace, n.Model, n.Tag)
 //@   ensures result.1 == nil ==> fqname(n.Host, n.Namespace, n.Model, n.Tag)
 //@   ensures result.1 == nil ==> result.0 != nil && result.0.filepath == manifestfile(n.Host, n.Namespace, n.Model, n.Tag)
+// -- for C04 (requested by its extension; the block lives here): a manifest is answered only after its
+// JSON was decoded without error (a swallowed decode error yields an empty layer list, and the
+// scan-then-remove of Layer.Remove / deleteUnusedLayers then deletes blobs in use); it is read from
+// the opened file; an error comes without a manifest; the function neither removes nor creates files.
+//@   ghost-at entry : ghost_pdec := 0
+//@   ghost-at after call Decode #1 : ghost_pdec := ite(result == nil, 1, 0)
+//@   assert-at call io.TeeReader #1 : tagis(arg0, "*os.File")
+//@   ensures result.1 == nil ==> ghost_pdec == 1 && fresh(result.0)
+//@   ensures result.1 != nil ==> result.0 == nil
+//@   assert-at call os.Remove : false
+//@   assert-at call os.Create : false
+//@   assert-at call os.OpenFile : false
 
 // ==== end C13 ====
